@@ -67,6 +67,10 @@ NoDoubleCertification(o) ==
     \A en \in DupEntities(o) :
         en \in crashed /\ KnownFor([ev |-> "DoubleCertification", cause |-> "stop_between_cert_insert_and_mark"])
 
+(* C15 -- a round flagged certified has its certificate: otherwise it is never retried nor superseded *)
+CertifiedHasCertificate(o) ==
+    \A m \in DOMAIN o.open : o.open[m].certified => \E i \in DOMAIN o.certs : o.certs[i].entity = o.open[m].entity
+
 (* C15 -- artifacts *)
 NoTwoArtifacts(o) == \A a, b \in DOMAIN o.arts : o.arts[a].entity = o.arts[b].entity => a = b
 ArtifactRefsItsCertificate(o) ==
@@ -97,7 +101,7 @@ ObsInv(o) ==
     /\ (C14 \/ C15) => ChainVerifies(o)
     /\ C14 => (KeyInForce(o) /\ ParentRule(o))
     /\ (C14 \/ C15) => NoDoubleCertification(o)
-    /\ C15 => (NoTwoArtifacts(o) /\ ArtifactRefsItsCertificate(o))
+    /\ C15 => (NoTwoArtifacts(o) /\ ArtifactRefsItsCertificate(o) /\ CertifiedHasCertificate(o))
     /\ C16 => (Attribution(o) /\ OnePlace(o))
 
 -----------------------------------------------------------------------------
